@@ -35,6 +35,12 @@ def classify(argv, want_trace=True):
     if MM._verif_trace is not None:
         del MM._verif_trace[:]
     res = dict(kind=None, stage=None, exc=None, func=None, msg='')
+    tmpd = None
+    if any('@TMP@' in a for a in argv):
+        import tempfile
+        os.makedirs(C.WORK, exist_ok=True)
+        tmpd = tempfile.mkdtemp(prefix='c20out-', dir=C.WORK)
+        argv = [a.replace('@TMP@', os.path.join(tmpd, 'out.txt')) for a in argv]
     signal.signal(signal.SIGALRM, _alarm)
     signal.alarm(120)
     try:
@@ -59,6 +65,9 @@ def classify(argv, want_trace=True):
         rc = None
     finally:
         signal.alarm(0)
+        if tmpd:
+            import shutil
+            shutil.rmtree(tmpd, ignore_errors=True)
     if MM._verif_trace is not None:
         st = [e['name'] for e in MM._verif_trace if e['ev'] == 'Stage']
         res['stage'] = st[-1] if st else None
